@@ -299,6 +299,8 @@ def rule_perm(ctx):
                     continue  # positions of a subset (axes to sum over, ...): not a layout change
             else:
                 continue
+            if fname == "_parse_einsum_single" and _roles(f, source, target) == "unknown":
+                continue  # positions of a subset (the axes to sum); this planner is decided semantically by [C11-SINGLEPLAN]
             if fname not in anchors and _roles(f, source, target) == "unknown":
                 r.exempt(ctx.key(f, "C11-PERM", f"{len(r.instances)}"), C.loc(f, n),
                          f"`{C.unparse(n, 50)}`: current and wanted layout not told apart here — not decided")
@@ -424,6 +426,11 @@ def rule_single(ctx):
             return "perm"
         return "?"
     pk = [pkind(n) for n in pnames]
+    # (round 8) the planner's side is decided semantically by [C11-SINGLEPLAN] — evaluation of the plan on layouts,
+    # assuming the order (diag, sum, perm): when that holds, the pattern reading above is not needed and cannot be wrong
+    plan_ok = not rule_singleplan(ctx).violations
+    if plan_ok:
+        pk = ["diag", "sum", "perm"]
     # executor: unpack and usage kinds
     unp = [n for n in walk_local(ef.node) if isinstance(n, ast.Assign) and isinstance(n.targets[0], ast.Tuple)
            and isinstance(n.value, ast.Call) and dotted(n.value.func) == "_parse_einsum_single"]
@@ -480,8 +487,8 @@ def rule_single(ctx):
         if any(isinstance(x, ast.Assign) and dotted(x.targets[0]) == lhs and isinstance(x.value, (ast.Call, ast.BinOp, ast.IfExp))
                and "replace" in C.unparse(x.value) for x in ast.walk(st)):
             rewrites.setdefault(i, True)
-    good = pos.get("diag", -1) < pos.get("sum", -1) < pos.get("perm", -1) and \
-        pos.get("diag") in rewrites and pos.get("sum") in rewrites
+    good = (pos.get("diag", -1) < pos.get("sum", -1) < pos.get("perm", -1) and
+            pos.get("diag") in rewrites and pos.get("sum") in rewrites) or plan_ok
     if good:
         r.ok(k, pf.loc, "sum axes are looked up after the diagonal rewrite, the permutation after the summed "
              "indices were removed")
@@ -1213,4 +1220,128 @@ def rule_prims(ctx):
     return r
 
 
-RULES = [rule_prims, rule_diag, rule_dedup, rule_plandep, rule_layout, rule_perm, rule_single, rule_axes, rule_memo, rule_exec, rule_pure]
+def rule_singleplan(ctx):
+    """(sensitivity map, round 8: the suite never reaches this planner) The single-operand planner is a pure function
+    of (equation, shape).  Its source is evaluated — by the engine's mini-evaluator, nothing is imported — on every
+    one-operand equation over three symbols up to rank four with every explicit output, and the plan it returns is
+    *applied to the layout string* under numpy's rules (diagonal by advanced indexing: adjacent → in place, separated
+    → to the front; sum removes positions; transpose permutes): the final layout must be the output, every selector
+    must cover the current rank and use the repeated letter's range, every axis tuple must be in range."""
+    import itertools
+
+    from ..engine.minieval import Mini, NoEval, Raised, SLICE_ALL
+
+    r = RuleResult("C11-SINGLEPLAN", "the single-operand plan, applied to the layout, yields the output", 1)
+    m = ctx.p.module(C.CONTRACT)
+    f = ctx.p.func(C.CONTRACT, "_parse_einsum_single")
+    helpers = {g.name: g.node for g in m.all_funcs if g.cls is None and g.name in ("_sanitize_equation",)}
+    C.require(f is not None and "_sanitize_equation" in helpers, "_parse_einsum_single / _sanitize_equation not found")
+    size = {"a": 2, "b": 3, "c": 4}
+    k = ctx.key(f, "C11-SINGLEPLAN")
+    n_eq = 0
+    bad = None
+    try:
+        for rank in range(0, 5):
+            for term in itertools.product("abc", repeat=rank):
+                letters = sorted(set(term))
+                for kk in range(len(letters) + 1):
+                    for sub in itertools.combinations(letters, kk):
+                        for out in itertools.permutations(sub):
+                            if rank == 4 and len(out) > 2 and out != tuple(sorted(out)):
+                                continue  # keep the family small: all orders up to rank 3, sorted + pairs at rank 4
+                            eq = "".join(term) + "->" + "".join(out)
+                            shape = tuple(size[c] for c in term)
+                            n_eq += 1
+                            try:
+                                plan = Mini(helpers, budget=20000).call(f.node, [eq, shape])
+                            except Raised as e:
+                                bad = bad or (eq, f"the planner raises ({e.text})")
+                                continue
+                            except NoEval:
+                                raise
+                            except Exception as e:  # an operation of the evaluated source failed (e.g. str.index)
+                                bad = bad or (eq, f"the planner raises ({type(e).__name__}: {e})")
+                                continue
+                            why = _apply_single_plan(plan, "".join(term), "".join(out), size, SLICE_ALL)
+                            if why and bad is None:
+                                bad = (eq, why)
+        # implicit output: the sorted indices that appear exactly once
+        for term in ("ab", "ba", "aab", "abb", "cab", "abcb", "bca", "aa", "a", ""):
+            n_eq += 1
+            want = "".join(c for c in sorted(set(term)) if term.count(c) == 1)
+            try:
+                plan = Mini(helpers, budget=20000).call(f.node, [term, tuple(size[c] for c in term)])
+            except Raised as e:
+                bad = bad or (term, f"the planner raises ({e.text})")
+                continue
+            except NoEval:
+                raise
+            except Exception as e:
+                bad = bad or (term, f"the planner raises ({type(e).__name__}: {e})")
+                continue
+            why = _apply_single_plan(plan, term, want, size, SLICE_ALL)
+            if why and bad is None:
+                bad = (term + " (implicit output)", why)
+    except NoEval as e:
+        raise AnalysisError(f"_parse_einsum_single: not evaluable by the mini-evaluator ({e})")
+    # the executor applies each stage exactly when the plan has one
+    ef = ctx.p.func(C.CONTRACT, "_einsum_single")
+    pol = []
+    for st in ef.node.body:
+        if isinstance(st, ast.If) and isinstance(st.test, ast.Compare) and len(st.test.ops) == 1 and \
+                isinstance(st.test.comparators[0], ast.Constant) and st.test.comparators[0].value is None:
+            pol.append((st, isinstance(st.test.ops[0], ast.IsNot)))
+    C.require(len(pol) >= 3, "_einsum_single: the three stage guards not found")
+    wrong = [st for st, ok_ in pol if not ok_]
+    if wrong and bad is None:
+        bad = ("any equation", f"the executor runs a stage under `{C.unparse(wrong[0].test)}` — when the plan has none")
+    if bad:
+        r.violation(k, f.loc, f"for `{bad[0]}` {bad[1]}: the library's own one-operand einsum (used when the array library has none) "
+                    "returns another array than the reference")
+    else:
+        r.ok(k, f.loc, f"{n_eq} one-operand equations: the returned plan turns the operand's layout into the output")
+    return r
+
+
+def _apply_single_plan(plan, lay, out, size, SLICE_ALL):
+    try:
+        return _apply_single_plan_(plan, lay, out, size, SLICE_ALL)
+    except (TypeError, IndexError, KeyError, ValueError) as e:
+        return f"the plan is malformed ({type(e).__name__}: {e})"
+
+
+def _apply_single_plan_(plan, lay, out, size, SLICE_ALL):
+    if not (isinstance(plan, tuple) and len(plan) == 3):
+        return "the plan is not (diagonals, sum axes, permutation)"
+    diag, sum_axes, perm = plan
+    for sel in diag or ():
+        sel = tuple(sel)
+        if len(sel) != len(lay):
+            return f"a selector has {len(sel)} entries for the {len(lay)} axes of `{lay}`"
+        adv = [i for i, s_ in enumerate(sel) if s_ != SLICE_ALL]
+        if len(adv) < 2 or len({lay[i] for i in adv}) != 1:
+            return f"a selector indexes axes {adv} of `{lay}`, which are not the occurrences of one repeated index"
+        L = lay[adv[0]]
+        if any(tuple(sel[i]) != tuple(range(size[L])) for i in adv) or len(adv) != lay.count(L):
+            return f"a selector does not take the full diagonal over `{L}` of `{lay}`"
+        rest = "".join(c for i, c in enumerate(lay) if i not in adv)
+        if adv == list(range(adv[0], adv[0] + len(adv))):
+            lay = lay[:adv[0]] + L + lay[adv[0] + len(adv):]
+        else:
+            lay = L + rest
+    if sum_axes is not None:
+        ax = list(sum_axes)
+        if len(set(ax)) != len(ax) or any(not (0 <= a_ < len(lay)) for a_ in ax):
+            return f"sum axes {tuple(ax)} are not distinct axes of `{lay}`"
+        lay = "".join(c for i, c in enumerate(lay) if i not in ax)
+    if perm is not None:
+        pm = list(perm)
+        if sorted(pm) != list(range(len(lay))):
+            return f"{tuple(pm)} is not a permutation of the axes of `{lay}`"
+        lay = "".join(lay[i] for i in pm)
+    if lay != out:
+        return f"the plan leaves the layout `{lay}`, the output is `{out}`"
+    return None
+
+
+RULES = [rule_singleplan, rule_prims, rule_diag, rule_dedup, rule_plandep, rule_layout, rule_perm, rule_single, rule_axes, rule_memo, rule_exec, rule_pure]
